@@ -212,6 +212,9 @@ func runBatch(cases []WCase, wallPerBatch time.Duration) ([]WResult, error) {
 	results := make([]WResult, len(cases))
 	done := make([]bool, len(cases))
 	self, _ := os.Executable()
+	if b := os.Getenv("VCHECK_WORKER_BIN"); b != "" {
+		self = b // e.g. the -race build, for cases that exercise concurrency
+	}
 	start := 0
 	for start < len(cases) {
 		cmd := exec.Command(self, "-worker", dir)
@@ -276,6 +279,9 @@ func runBatch(cases []WCase, wallPerBatch time.Duration) ([]WResult, error) {
 			r.Outcome = "panic"
 			r.Panic = firstMatchLine(tail, "panic:")
 			r.Frame = "unrecovered"
+		case strings.Contains(tail, "WARNING: DATA RACE"):
+			r.Outcome = "fatal"
+			r.Panic = "DATA RACE reported by the race detector: " + raceKey(tail)
 		default:
 			r.Outcome = "exit"
 			r.Panic = fmt.Sprintf("exit status %d: %s", code, lastLines(tail, 2))
@@ -301,7 +307,7 @@ func caseWatchdog() time.Duration {
 			return time.Duration(n) * time.Second
 		}
 	}
-	return 20 * time.Second
+	return 10 * time.Second
 }
 
 func firstMatchLine(s, sub string) string {
@@ -340,7 +346,7 @@ func runBatches(r *mon.Run, cases []WCase, per, w int) []WResult {
 		if out[i].Outcome == "timeout" || (out[i].Outcome == "exit" && strings.Contains(out[i].Panic, "exit status -1")) {
 			// confirm the first few alone; once a hang is confirmed the remaining ones are
 			// counted but not each paid for with another long wait
-			if reruns >= 3 {
+			if reruns >= 2 {
 				r.Count("timeouts_not_rerun", 1)
 				if out[i].Outcome == "timeout" {
 					out[i].Outcome = "timeout-unconfirmed"
@@ -349,7 +355,7 @@ func runBatches(r *mon.Run, cases []WCase, per, w int) []WResult {
 			}
 			reruns++
 			r.Count("cases_rerun_alone", 1)
-			os.Setenv("VCHECK_CASE_WATCHDOG_S", "60")
+			os.Setenv("VCHECK_CASE_WATCHDOG_S", "30")
 			res, err := runBatch(cases[i:i+1], 5*time.Minute)
 			os.Unsetenv("VCHECK_CASE_WATCHDOG_S")
 			if err == nil && len(res) == 1 {
